@@ -1,4 +1,5 @@
 import QProofs.MachineExchSpec
+import QProofs.MachineHistory
 /-!
 # C05 — grand-canonical bookkeeping tracks the real system
 
@@ -160,6 +161,205 @@ theorem not_accepted_keeps_labels (sim : Sim) (r : Nat) (s : State) (hinv : InvG
       exact (hheap.2 r').2.1
     | true => simp [hok] at hna
 
+/-! ### histories of insertions and deletions -/
+
+/-- the bookkeeping invariant of the grand-canonical driver between trials -/
+structure GInv (sim : Sim) (s : State) : Prop where
+  invg : InvG s
+  delta0 : s.ctx.delta = 0
+  aligned : LabelsAligned sim s
+  templ : s.ctx.template ≠ []
+
+theorem toAddOf_ne_nil (m : MoveObj) (c : Ctx) (h : c.template ≠ []) : toAddOf m c ≠ [] := by
+  unfold toAddOf
+  cases hm : m.toAdd with
+  | none => exact h
+  | some rows =>
+    simp only []
+    split
+    · exact h
+    · rename_i hne; intro hn; rw [hn] at hne; simp at hne
+
+/-- what one exchange trial does to the counter -/
+def counterStep (before after : State) : Int :=
+  if after.atoms.rows.length > before.atoms.rows.length then 1
+  else if after.atoms.rows.length < before.atoms.rows.length then -1 else 0
+
+/-- **ginv_trial**: every outcome of an exchange trial (accepted insertion or deletion, rejection, failure)
+    re-establishes the invariant — labels of every move aligned with the atoms, constraint indices valid, nothing
+    pending — and moves the particle counter by exactly the change of the particle number. -/
+theorem ginv_trial (sim : Sim) (he : sim.ens = .grand) (r : Nat) (v : Bool) (s : State) (h : GInv sim s)
+    (hk : (s.obj r).kind = .exch) (hrl : (s.obj r).labels.length = s.atoms.rows.length) :
+    GInv sim (trial sim (.leaf r) v s).2 ∧
+    (trial sim (.leaf r) v s).2.ctx.nExch = s.ctx.nExch + counterStep s (trial sim (.leaf r) v s).2 := by
+  have hnew := toAddOf_ne_nil (s.obj r) s.ctx h.templ
+  obtain ⟨hout, hheap, htm, hnx⟩ := exchCall_outcome r s h.invg hnew
+  have hrej := exch_not_accepted_restores sim he r s h.invg hk hrl hnew
+  have hacc := labels_aligned_after_accept sim he r s h.invg hk hnew hrl h.aligned
+  have htr : trial sim (.leaf r) v s =
+      if (exchCall r s).1 then (if v then (.accepted, saveState sim (exchCall r s).2)
+                                 else (.rejected, revertState sim (exchCall r s).2))
+      else (.failed, (exchCall r s).2) := by
+    simp [trial, callTree, leafCall, hk]
+  have hrejA : (exchCall r s).1 = true → (revertState sim (exchCall r s).2).atoms = s.atoms := by
+    intro hok
+    have := hrej
+    simp only [trial, callTree, leafCall, hk, hok, if_true, Bool.false_eq_true, if_false] at this
+    exact this
+  rw [htr]
+  generalize hs1 : (exchCall r s).2 = s1 at *
+  cases hok : (exchCall r s).1 with
+  | false =>
+    rw [hok] at hout
+    cases hout with
+    | failed hat ha hd hdelta hcore =>
+      simp only [Bool.false_eq_true, if_false]
+      have hlp : s1.ctx.lastPos = s.ctx.lastPos := by have := congrArg Ctx.lastPos hcore; simpa [ctxCore] using this
+      have hda : s1.ctx.deletedAtoms = s.ctx.deletedAtoms := by
+        have := congrArg Ctx.deletedAtoms hcore; simpa [ctxCore] using this
+      have hsv : s1.ctx.savedFixed = s.ctx.savedFixed := by
+        have := congrArg Ctx.savedFixed hcore; simpa [ctxCore] using this
+      refine ⟨⟨⟨by rw [hlp, hat]; exact h.invg.lastPos, ha, hd, by rw [hda]; exact h.invg.noDeletedAtoms,
+                by rw [hsv]; exact h.invg.noSaved, by rw [hat]; exact h.invg.fixedOK⟩,
+               by rw [hdelta]; exact h.delta0, ?_, by rw [htm]; exact h.templ⟩, ?_⟩
+      · intro r' hr' hlt hlb
+        have hst := hheap.2 r'
+        have hlt0 : r' < s.heap.length := by rw [← hheap.1]; exact hlt
+        have hlb0 : labelBearing (s.obj r').kind = true := by
+          have : (s1.obj r').kind = (s.obj r').kind := hst.1
+          rw [← this]; exact hlb
+        have : (s1.obj r').labels = (s.obj r').labels := hst.2.1
+        rw [this, hat]; exact h.aligned r' hr' hlt0 hlb0
+      · simp [counterStep, hat, hnx]
+  | true =>
+    rw [hok] at hout
+    cases v with
+    | false =>
+      simp only [if_true, Bool.false_eq_true, if_false]
+      have hat := hrejA hok
+      have hlp1 : s1.ctx.lastPos = s.ctx.lastPos := by
+        cases hout with
+        | inserted d _ _ _ _ hlp => exact hlp
+        | deleted l _ _ _ _ _ hlp => exact hlp
+      have hheapR : (revertState sim s1).heap = s1.heap := revertState_shape sim s1
+      refine ⟨⟨⟨?_, by simp [revertState, he], by simp [revertState, he], by simp [revertState, he],
+                by simp [revertState, he], by rw [hat]; exact h.invg.fixedOK⟩,
+               by simp [revertState, he], ?_, by simp [revertState, he, htm]; exact h.templ⟩, ?_⟩
+      · rw [hat]
+        have : (revertState sim s1).ctx.lastPos = s1.ctx.lastPos := by simp [revertState, he]
+        rw [this, hlp1]; exact h.invg.lastPos
+      · intro r' hr' hlt hlb
+        have hobj : (revertState sim s1).obj r' = s1.obj r' := by simp [State.obj, hheapR]
+        have hst := hheap.2 r'
+        have hlt0 : r' < s.heap.length := by rw [← hheap.1, ← hheapR]; exact hlt
+        rw [hobj] at hlb ⊢
+        have hlb0 : labelBearing (s.obj r').kind = true := by
+          have : (s1.obj r').kind = (s.obj r').kind := hst.1
+          rw [← this]; exact hlb
+        have : (s1.obj r').labels = (s.obj r').labels := hst.2.1
+        rw [this, hat]; exact h.aligned r' hr' hlt0 hlb0
+      · have : (revertState sim s1).ctx.nExch = s1.ctx.nExch := by simp [revertState, he]
+        simp [counterStep, hat, this, hnx]
+    | true =>
+      simp only [if_true]
+      have hal := (hacc hok).2
+      simp only [trial, callTree, leafCall, hk, hok, if_true] at hal
+      rw [hs1] at hal
+      have hsa : (saveState sim s1).atoms = s1.atoms := by simp [saveState, he, ctxSave]
+      have hctx : (saveState sim s1).ctx.lastPos = positions s1.atoms.rows ∧ (saveState sim s1).ctx.addedIdx = [] ∧
+          (saveState sim s1).ctx.deletedIdx = [] ∧ (saveState sim s1).ctx.deletedAtoms = [] ∧
+          (saveState sim s1).ctx.savedFixed = none ∧ (saveState sim s1).ctx.delta = 0 ∧
+          (saveState sim s1).ctx.template = s1.ctx.template ∧
+          (saveState sim s1).ctx.nExch = s1.ctx.nExch + s1.ctx.delta := by
+        simp [saveState, he, ctxSave]
+      obtain ⟨c1, c2, c3, c4, c5, c6, c7, c8⟩ := hctx
+      have hfx : FixedOK s1.atoms ∧ counterStep s (saveState sim s1) = s1.ctx.delta := by
+        cases hout with
+        | inserted d hat ha hd hdelta hlp =>
+          constructor
+          · have hfx0 := h.invg.fixedOK
+            have hfixed : s1.atoms.fixed = s.atoms.fixed := by rw [hat]; rfl
+            have hlen1 : s.atoms.rows.length ≤ s1.atoms.rows.length := by
+              rw [hat, applyDisp_length]; simp [AtomsS.extend]
+            unfold FixedOK at hfx0 ⊢
+            rw [hfixed]
+            cases hf : s.atoms.fixed with
+            | none => trivial
+            | some f =>
+              rw [hf] at hfx0
+              exact ⟨hfx0.1, fun i hi => by have := hfx0.2 i hi; omega⟩
+          · have hlen : s1.atoms.rows.length = s.atoms.rows.length + (toAddOf (s.obj r) s.ctx).length := by
+              rw [hat, applyDisp_length]; simp [AtomsS.extend]
+            have hpos : 0 < (toAddOf (s.obj r) s.ctx).length := List.length_pos_iff.mpr hnew
+            simp only [counterStep, hsa, hlen, hdelta, h.delta0]
+            have : s.atoms.rows.length + (toAddOf (s.obj r) s.ctx).length > s.atoms.rows.length := by omega
+            simp [this]
+        | deleted l hne hat ha hd hdelta hlp =>
+          have hnd : (whereEq (s.obj r).labels l).Nodup := whereEq_nodup _ _
+          have hv : ∀ i ∈ whereEq (s.obj r).labels l, i < s.atoms.rows.length := by
+            intro i hi; rw [← hrl]; exact whereEq_lt _ _ _ hi
+          constructor
+          · rw [hat]; exact fixedOK_delete s.atoms _ h.invg.fixedOK hnd hv
+          · have hR := deleteFrom_length (whereEq (s.obj r).labels l) hnd s.atoms.rows 0 (by simpa using hv)
+            have hf : ((whereEq (s.obj r).labels l).filter (fun i => decide (0 ≤ i))) = whereEq (s.obj r).labels l := by simp
+            rw [hf] at hR
+            have hpos : 0 < (whereEq (s.obj r).labels l).length := List.length_pos_iff.mpr hne
+            have hlen : s1.atoms.rows.length + (whereEq (s.obj r).labels l).length = s.atoms.rows.length := by
+              rw [hat]; simpa [AtomsS.delete, deleteIdx] using hR
+            simp only [counterStep, hsa, hdelta, h.delta0]
+            have h1 : ¬ s1.atoms.rows.length > s.atoms.rows.length := by omega
+            have h2 : s1.atoms.rows.length < s.atoms.rows.length := by omega
+            simp [h1, h2]
+      refine ⟨⟨⟨by rw [c1, hsa], c2, c3, c4, c5, by rw [hsa]; exact hfx.1⟩, c6, hal,
+               by rw [c7, htm]; exact h.templ⟩, ?_⟩
+      rw [c8, hnx, hfx.2]
+
+/-- one exchange trial of a history: which move object, the criteria verdict, the external inputs -/
+structure XTrial where
+  r : Nat
+  verdict : Bool
+  inp : Inputs
+
+def runX (sim : Sim) : List XTrial → State → State
+  | [], s => s
+  | t :: ts, s => runX sim ts (trial sim (.leaf t.r) t.verdict { s with inp := t.inp }).2
+
+/-- the net change of the particle number along a history -/
+def netChange (sim : Sim) : List XTrial → State → Int
+  | [], _ => 0
+  | t :: ts, s =>
+    counterStep s (trial sim (.leaf t.r) t.verdict { s with inp := t.inp }).2
+      + netChange sim ts (trial sim (.leaf t.r) t.verdict { s with inp := t.inp }).2
+
+/-- every scheduled move of the history is an exchange move of the table whose labels are aligned when it runs -/
+def XHistoryOK (sim : Sim) : List XTrial → State → Prop
+  | [], _ => True
+  | t :: ts, s =>
+    (s.obj t.r).kind = .exch ∧ t.r ∈ tableRefs sim ∧ t.r < s.heap.length ∧
+    XHistoryOK sim ts (trial sim (.leaf t.r) t.verdict { s with inp := t.inp }).2
+
+/-- **labels_inv_history / nexch_counter (histories)**: after ANY history of accepted, rejected and failed insertions and
+    deletions every label-bearing move of the table still has exactly one label per atom, nothing is pending, and the
+    recorded number of exchangeable particles is its initial value plus accepted insertions minus accepted deletions. -/
+theorem gc_history (sim : Sim) (he : sim.ens = .grand) (ts : List XTrial) (s : State) (h : GInv sim s)
+    (hok : XHistoryOK sim ts s) :
+    GInv sim (runX sim ts s) ∧ (runX sim ts s).ctx.nExch = s.ctx.nExch + netChange sim ts s := by
+  induction ts generalizing s with
+  | nil => exact ⟨h, by simp [runX, netChange]⟩
+  | cons t ts ih =>
+    obtain ⟨hk, hmem, hlt, hrest⟩ := hok
+    have h' : GInv sim ({ s with inp := t.inp } : State) := ⟨⟨h.invg.1, h.invg.2, h.invg.3, h.invg.4, h.invg.5, h.invg.6⟩,
+      h.delta0, h.aligned, h.templ⟩
+    have hrl : (s.obj t.r).labels.length = s.atoms.rows.length :=
+      h.aligned t.r hmem hlt (by simp [labelBearing, hk])
+    obtain ⟨g1, g2⟩ := ginv_trial sim he t.r t.verdict { s with inp := t.inp } h' hk hrl
+    obtain ⟨i1, i2⟩ := ih _ g1 hrest
+    refine ⟨i1, ?_⟩
+    simp only [runX, netChange]
+    rw [i2, g2]
+    simp only [counterStep]
+    omega
+
 /-! ### non-vacuity and the known finding -/
 
 def c5Sim : Sim := { ens := .grand, table := [{ name := "x", oid := 0, tree := .leaf 0 },
@@ -177,6 +377,21 @@ example : ((trial c5Sim (.leaf 0) true (c5State 1000)).2.heap.map (·.labels)) =
 -- accepted deletion of particle 1: labels follow, counter 2 → 1
 example : ((trial c5Sim (.leaf 0) true (c5State 0)).2.heap.map (·.labels)) = [[0], [4]] ∧
     (trial c5Sim (.leaf 0) true (c5State 0)).2.ctx.nExch = 1 := by decide
+
+-- a three-trial history: accepted insertion, rejected insertion, accepted deletion: counter 2 → 3 → 3 → 2, labels aligned
+def c5History : List XTrial :=
+  [⟨0, true, { draws := [0], ops := [(1,2,3)], checks := [true] }⟩,
+   ⟨0, false, { draws := [0], ops := [(2,2,2)], checks := [true] }⟩,
+   ⟨0, true, { draws := [999, 1] }⟩]
+
+example : XHistoryOK c5Sim c5History (c5State 500) := by
+  simp only [c5History, XHistoryOK]
+  decide
+
+example : netChange c5Sim c5History (c5State 500) = 0 ∧
+    (runX c5Sim c5History (c5State 500)).ctx.nExch = 2 ∧
+    ((runX c5Sim c5History (c5State 500)).heap.map (·.labels.length)) = [3, 3] ∧
+    (runX c5Sim c5History (c5State 500)).atoms.rows.length = 3 := by decide
 
 /-- **known finding, as a theorem**: a composite insertion of two particles labels both with ONE label. -/
 theorem composite_insertion_shares_label :
